@@ -87,6 +87,9 @@ class C01(Prop):
             specs = [T.gen_table(rng, sep=sep, bigint=False, empty_rate=0.05) for _ in range(nt)]
             if not all(self._wf(s, sep) for s in specs):
                 continue
+            for t in specs:
+                if rng.random() < 0.15:
+                    t["index"] = rng.choice(T.INDEX_KINDS)
             cases.append({"sep": sep, "tables": specs, "default_sep": rng.random() < 0.3, "path": rng.random() < 0.3})
         if tier == "thorough":
             import itertools
